@@ -732,4 +732,283 @@ theorem facts_hubops {s : State} (h : Inv s) (op : Op) (hop : op = .attach ∨ o
   · exact facts_silent h.nodup rfl rfl (fun _ _ => rfl) rfl (Or.inl rfl) (Or.inr rfl) (by simp [orderOk])
   · exact facts_silent h.nodup rfl rfl (fun _ _ => rfl) rfl (Or.inl rfl) (Or.inl rfl) (by simp [orderOk])
 
+
+/-! ## update_values_from_data -/
+
+theorem rep_skip {m : Msg} (hm : Msg.isStructural m = false) (cur : List Cid) : Rep cur cur [m] := by
+  intro rest
+  cases m <;> simp [Msg.isStructural] at hm <;> simp [replay]
+
+theorem addMain_next (s : State) (c : Cid) (shape : Shape) (val : Nat) : s.next ≤ (addMain s c shape val).1.next := by
+  simp only [addMain, Res.bind]
+  split
+  · simp only [createPixelWorld, Res.bind, addRaw]
+    have h1 : (newPixels s shape.length).1.next = s.next + shape.length := rfl
+    have h2 := (frame_updateWorld (newPixels s shape.length).1 shape.length).1.next
+    omega
+  · simp [addRaw]
+
+theorem eff_addNewOnes {old : Cid → Prop} (shape : Shape) : ∀ (l : List (Label × Nat)) {s : State}, Inv s →
+    s.shape = shape → (l ≠ [] → shape ≠ []) → (∀ c, old c → c < s.next) →
+    Eff old s (addNewOnes s shape l).1 (addNewOnes s shape l).2.1 ∧ (addNewOnes s shape l).2.2 = none ∧
+    s.next ≤ (addNewOnes s shape l).1.next
+  | [], s, _, _, _, _ => by simpa [addNewOnes] using Eff.refl old s
+  | (lab, v) :: rest, s, h, hs, hl, hb => by
+    have hne : shape ≠ [] := hl (by simp)
+    have hcan : canAdd s shape = true := by simp [canAdd, hs]
+    obtain ⟨a, _, _, d, _, _, _, hn, hcid, _⟩ := fresh_frame s lab
+    have hb0 : ∀ c, old c → c < (fresh s lab).1.next := fun c hc => by rw [hn]; exact Nat.lt_succ_of_lt (hb c hc)
+    obtain ⟨e0, _⟩ := eff_fresh (old := old) s lab hb
+    obtain ⟨e1, _⟩ := eff_addMain (old := old) (W_fresh (W_of_inv h) lab) hb0 (fresh s lab).2
+      (by rw [a, hcid]; exact fresh_not_mem h) (by rw [hn, hcid]; exact Nat.lt_succ_self _)
+      (by rw [hcid]; intro ho; exact Nat.lt_irrefl _ (hb _ ho)) shape v
+    have hI : Inv (addMain (fresh s lab).1 (fresh s lab).2 shape v).1 := by
+      apply inv_addMain (inv_fresh h lab)
+      · rw [hn, hcid]; exact Nat.lt_succ_self _
+      · rw [a, hcid]; exact fresh_not_mem h
+      · exact hne
+      · rw [canAdd_fresh]; exact hcan
+    have hS : (addMain (fresh s lab).1 (fresh s lab).2 shape v).1.shape = shape := by
+      rw [addMain_shape (inv_fresh h lab) _ _ _ (by rw [d, hs]; exact hne), d, hs]
+    have hb1 : ∀ c, old c → c < (addMain (fresh s lab).1 (fresh s lab).2 shape v).1.next := fun c hc =>
+      Nat.lt_of_lt_of_le (hb0 c hc) (addMain_next _ _ _ _)
+    obtain ⟨e2, herr, hnx⟩ := eff_addNewOnes shape rest hI hS (fun _ => hne) hb1
+    simp only [addNewOnes, hcan, Bool.not_true, Bool.false_eq_true, if_false]
+    refine ⟨?_, herr, ?_⟩
+    · have := (e0.trans e1).trans e2
+      simpa using this
+    · have h1 := addMain_next (fresh s lab).1 (fresh s lab).2 shape v
+      rw [hn] at h1
+      exact Nat.le_trans (by omega) hnx
+
+theorem form_comp {old : Cid → Prop} {a b c : List Cid} {k1 k2 : Cid → Bool} {n1 n2 : List Cid}
+    (e1 : b = a.filter k1 ++ n1) (o1 : ∀ x ∈ n1, ¬ old x) (e2 : c = b.filter k2 ++ n2) (o2 : ∀ x ∈ n2, ¬ old x) :
+    ∃ (k : Cid → Bool) (new : List Cid), c = a.filter k ++ new ∧ ∀ x ∈ new, ¬ old x := by
+  refine ⟨fun x => k1 x && k2 x, n1.filter k2 ++ n2, ?_, ?_⟩
+  · rw [e2, e1, List.filter_append, List.filter_filter, List.append_assoc]
+    congr 2
+    funext x
+    exact Bool.and_comm _ _
+  · intro x hx
+    rcases List.mem_append.1 hx with hx | hx
+    · exact o1 x (List.mem_filter.1 hx).1
+    · exact o2 x hx
+
+theorem ufStages_eff {old : Cid → Prop} {s : State} (hW : W s) (hb : ∀ c, old c → c < s.next) (o : Other) :
+    Eff old s (ufStages s o).1 (ufStages s o).2 ∧ W (ufStages s o).1 ∧ s.next ≤ (ufStages s o).1.next := by
+  simp only [ufStages, ufRemove, Res.bind]
+  obtain ⟨e1, w1, n1⟩ := eff_removeAll (old := old) hW
+    (((nonCoord s).filter fun c => !(o.comps.map (·.1)).contains (s.label c.cid)).map (·.cid))
+  generalize (removeAll s (((nonCoord s).filter fun c => !(o.comps.map (·.1)).contains (s.label c.cid)).map (·.cid))) = r1
+    at e1 w1 n1
+  have hb1 : ∀ c, old c → c < r1.1.next := fun c hc => by rw [n1]; exact hb c hc
+  -- stage 2
+  have st2 : ∃ r2 : Res, (if (o.shape.length != s.shape.length) = true then ufDropCoords r1.1 else (r1.1, [])) = r2 ∧
+      Eff old r1.1 r2.1 r2.2 ∧ W r2.1 ∧ r1.1.next ≤ r2.1.next := by
+    split
+    · refine ⟨_, rfl, ?_⟩
+      simp only [ufDropCoords, Res.bind]
+      obtain ⟨e2, w2, n2⟩ := eff_setCoords (old := old) w1 hb1 none
+      generalize (setCoords r1.1 none) = ra at e2 w2 n2
+      have hba : ∀ c, old c → c < ra.1.next := fun c hc => Nat.lt_of_lt_of_le (hb1 c hc) n2
+      obtain ⟨e3, w3, n3⟩ := eff_removeAll (old := old) w2 ra.1.pix
+      generalize (removeAll ra.1 ra.1.pix) = rb at e3 w3 n3
+      have e4 : Eff old rb.1 { rb.1 with pix := [] } [] := Eff.silent rfl rfl (fun _ _ => rfl) rfl rfl rfl
+      refine ⟨?_, ⟨w3.nodup, w3.fresh⟩, by simp only [n3]; exact n2⟩
+      have := (e2.trans e3).trans e4
+      simpa using this
+    · exact ⟨_, rfl, Eff.refl old _, w1, Nat.le_refl _⟩
+  obtain ⟨r2, hr2, e2, w2, n2⟩ := st2
+  rw [hr2]
+  have hb2 : ∀ c, old c → c < r2.1.next := fun c hc => Nat.lt_of_lt_of_le (hb1 c hc) n2
+  -- stage 3
+  simp only [ufReshape]
+  have e3 : Eff old r2.1 { r2.1 with shape := o.shape } [] := Eff.silent rfl rfl (fun _ _ => rfl) rfl rfl rfl
+  have w3 : W { r2.1 with shape := o.shape } := ⟨w2.nodup, w2.fresh⟩
+  split
+  · obtain ⟨e4, w4⟩ := eff_newPixels (old := old) w3 hb2 o.shape.length
+    refine ⟨?_, w4, ?_⟩
+    · have := ((e1.trans e2).trans e3).trans e4
+      simpa using this
+    · have : (newPixels { r2.1 with shape := o.shape } o.shape.length).1.next = r2.1.next + o.shape.length := rfl
+      rw [this]; omega
+  · refine ⟨?_, w3, ?_⟩
+    · have := (e1.trans e2).trans e3
+      simpa using this
+    · simp only; omega
+
+/-- The end of `update_values_from_data`: after the structural part `m1` come the label
+announcement `L`, the structural messages `m2` of the `coords` setter, and
+`NumericalDataChanged` `N`. -/
+theorem facts_refresh_tail {s s5 s6 s7 : State} {m1 L m2 N : List Msg} {op : Op} (h : Inv s)
+    (E1 : Eff (fun c => c < s.next) s s5 m1) (E2 : Eff (fun c => c < s.next) s6 s7 m2)
+    (hc6 : s6.comps = s5.comps) (hh6 : s6.hub = s5.hub) (hl6 : ∀ c, s6.label c = s5.label c)
+    (hk6 : s6.linked = s5.linked)
+    (hL : L = if (s5.dlabel != s6.dlabel) = true then (if s5.hub = true then [Msg.update] else []) else [])
+    (hN : N = if s7.hub = true then [Msg.numerical none] else [])
+    (hop : op.isValueUpdate = true)
+    (hord : ∀ a b, orderOk op a b = (b.filter a.contains == a.filter b.contains)) :
+    Facts s s7 op (m1 ++ (L ++ m2 ++ N)) := by
+  have hub7 : s7.hub = s.hub := (E2.hub.trans hh6).trans E1.hub
+  have hLs : ∀ m ∈ L, m = Msg.update := by
+    intro m hm; rw [hL] at hm
+    split at hm
+    · split at hm
+      · simpa using hm
+      · cases hm
+    · cases hm
+  have hNs : ∀ m ∈ N, m = Msg.numerical none := by
+    intro m hm; rw [hN] at hm
+    split at hm
+    · simpa using hm
+    · cases hm
+  -- which messages can occur
+  have hmem : ∀ m ∈ m1 ++ (L ++ m2 ++ N), Msg.isStructural m = true ∨ m = .update ∨ m = .numerical none := by
+    intro m hm
+    simp only [List.mem_append] at hm
+    rcases hm with hm | (hm | hm) | hm
+    · exact Or.inl (E1.structural m hm)
+    · exact Or.inr (Or.inl (hLs m hm))
+    · exact Or.inl (E2.structural m hm)
+    · exact Or.inr (Or.inr (hNs m hm))
+  have nr : ∀ c, Msg.rename c ∉ m1 ++ (L ++ m2 ++ N) := by
+    intro c hc
+    rcases hmem _ hc with h1 | h1 | h1 <;> cases h1
+  have nx : Msg.ext ∉ m1 ++ (L ++ m2 ++ N) := by
+    intro hc
+    rcases hmem _ hc with h1 | h1 | h1 <;> cases h1
+  have lab7 : ∀ c, c < s.next → s7.label c = s.label c := by
+    intro c hc
+    rw [E2.label c hc, hl6, E1.label c hc]
+  have lk7 : s7.linked = s.linked := (E2.linked.trans hk6).trans E1.linked
+  refine ⟨Or.inl hub7, ?_, ?_, ?_, ?_, ?_, ?_, ?_, ?_, Or.inl hop, ?_, ?_⟩
+  · intro hh
+    have hs : s.hub = false := hub7 ▸ hh
+    have h5 : s5.hub = false := E1.hub.trans hs
+    have h6 : s6.hub = false := hh6.trans h5
+    rw [E1.quiet hs, E2.quiet h6, hL, hN, hh, h5]
+    simp
+  · intro hh
+    have hs : s.hub = true := hub7 ▸ hh
+    have h5 : s5.hub = true := E1.hub.trans hs
+    have h6 : s6.hub = true := hh6.trans h5
+    have r1 := E1.rep hs
+    have r2 := E2.rep h6
+    rw [hc6] at r2
+    have rL : Rep (cids s5.comps) (cids s5.comps) L := by
+      rw [hL, h5]
+      split
+      · exact rep_skip rfl _
+      · exact Rep.nil _
+    have rN : Rep (cids s7.comps) (cids s7.comps) N := by
+      rw [hN, hh]; exact rep_skip rfl _
+    exact (r1.append ((rL.append r2).append rN)).done
+  · rw [hord]
+    obtain ⟨k1, n1, e1, o1⟩ := E1.form
+    obtain ⟨k2, n2, e2, o2⟩ := E2.form
+    rw [hc6] at e2
+    obtain ⟨k, new, e, on⟩ := form_comp e1 o1 e2 o2
+    exact order_of_form e (fun c hc hm => on c hc (h.fresh.1 c hm))
+  · intro x' _ x hx hxc _
+    rw [lab7 _ (h.fresh.1 _ (hxc ▸ List.mem_map.2 ⟨x, hx, rfl⟩))]
+    simpa using nr x'.cid
+  · intro x' _ _
+    simpa using nr x'.cid
+  · intro c hc; exact absurd hc (nr c)
+  · intro hh
+    have hs : s.hub = true := hub7 ▸ hh
+    have h5 : s5.hub = true := E1.hub.trans hs
+    have hd : s7.dlabel = s6.dlabel := E2.dlabel
+    have hd5 : s5.dlabel = s.dlabel := E1.dlabel
+    have n1 : Msg.update ∉ m1 := not_structural_mem E1.structural rfl
+    have n2 : Msg.update ∉ m2 := not_structural_mem E2.structural rfl
+    have nN : Msg.update ∉ N := by intro hc; cases hNs _ hc
+    rw [hd, ← hd5]
+    by_cases hch : (s5.dlabel != s6.dlabel) = true
+    · have : Msg.update ∈ L := by rw [hL, if_pos hch, h5]; simp
+      simp [hch, this]
+    · have : Msg.update ∉ L := by rw [hL, if_neg hch]; simp
+      have hch' : (s5.dlabel != s6.dlabel) = false := by simpa using hch
+      simp [hch', this, n1, n2, nN]
+  · intro x' _ _ _ _ hh
+    right
+    have : Msg.numerical none ∈ N := by rw [hN, hh]; simp
+    simp only [numericalCovers, List.any_eq_true]
+    exact ⟨.numerical none, by simp [this], rfl⟩
+  · intro _ _ he; exact absurd he nx
+  · intro _ _ hl; exact absurd lk7.symm hl
+
+theorem facts_updateFrom {s : State} (h : Inv s) (o : Other) (hns : o.comps ≠ [] → o.shape ≠ [])
+    (he : (updateFromImpl s o).err = none) :
+    Facts s (updateFromImpl s o).state (.updateFrom o) (updateFromImpl s o).msgs := by
+  simp only [updateFromImpl] at he ⊢
+  split at he
+  · cases he
+  rename_i hd1
+  rw [if_neg hd1]
+  split at he
+  · cases he
+  rename_i hd2
+  rw [if_neg hd2]
+  obtain ⟨e13, w13, n13⟩ := ufStages_eff (old := fun c => c < s.next) (W_of_inv h) (fun _ hc => hc) o
+  obtain ⟨hI4, hsh⟩ := inv_ufRefreshed h o hns
+  generalize hr3 : ufStages s o = r3 at e13 w13 n13 hI4 hsh he ⊢
+  -- the refresh does not touch identifiers
+  generalize hs4 : ({ r3.1 with comps := (applyRefresh r3.1
+      (((nonCoord s).map (fun c => s.label c.cid)).filter (o.comps.map (·.1)).contains) o) } : State) = s4 at hI4 he ⊢
+  have hcids4 : cids s4.comps = cids r3.1.comps := by
+    rw [← hs4]
+    simp only [applyRefresh, cids, List.map_map]
+    apply List.map_congr_left
+    intro c _
+    simp only [Function.comp]
+    split <;> rfl
+  have e4 : Eff (fun c => c < s.next) r3.1 s4 [] := by
+    rw [← hs4] at hcids4 ⊢
+    exact Eff.silent hcids4 rfl (fun _ _ => rfl) rfl rfl rfl
+  have hs4n : s4.next = r3.1.next := by rw [← hs4]
+  have hs4s : s4.shape = o.shape := by rw [← hs4]; exact hsh
+  obtain ⟨e5, herr5, hn5⟩ := eff_addNewOnes (old := fun c => c < s.next) o.shape
+    (o.comps.filter fun p => !((nonCoord s).map (fun c => s.label c.cid)).contains p.1) hI4 hs4s
+    (by
+      intro hne
+      apply hns
+      intro hoc
+      rw [hoc] at hne
+      exact hne rfl)
+    (fun c hc => by rw [hs4n]; exact Nat.lt_of_lt_of_le hc n13)
+  have hI5 := inv_addNewOnes o.shape
+    (o.comps.filter fun p => !((nonCoord s).map (fun c => s.label c.cid)).contains p.1) hI4 hs4s
+    (by
+      intro hne
+      apply hns
+      intro hoc
+      rw [hoc] at hne
+      exact hne rfl)
+  generalize hr5 : addNewOnes s4 o.shape
+    (o.comps.filter fun p => !((nonCoord s).map (fun c => s.label c.cid)).contains p.1) = r5 at e5 herr5 hn5 hI5 he ⊢
+  rw [herr5] at he ⊢
+  simp only [ok]
+  -- E1: everything up to here
+  have E1 : Eff (fun c => c < s.next) s r5.1 (r3.2 ++ r5.2.1) := by
+    have := (e13.trans e4).trans e5
+    simpa using this
+  -- the tail
+  have hb5 : ∀ c, c < s.next → c < r5.1.next := fun c hc => by
+    have : s4.next ≤ r5.1.next := hn5
+    rw [hs4n] at this
+    omega
+  have W5 := W_of_inv hI5
+  simp only [ufFinish, Res.bind, setLabelImpl]
+  by_cases hch : (r5.1.dlabel != o.label) = true
+  · simp only [hch, if_true]
+    obtain ⟨E2, _, _⟩ := eff_setCoords (old := fun c => c < s.next) (s := { r5.1 with dlabel := o.label })
+      ⟨W5.nodup, W5.fresh⟩ hb5 o.coords
+    refine facts_refresh_tail h E1 E2 rfl rfl (fun _ => rfl) rfl ?_ rfl rfl (fun _ _ => rfl)
+    simp only [hch, if_true]
+  · simp only [hch, Bool.false_eq_true, if_false]
+    obtain ⟨E2, _, _⟩ := eff_setCoords (old := fun c => c < s.next) (s := r5.1) W5 hb5 o.coords
+    refine facts_refresh_tail h E1 E2 rfl rfl (fun _ => rfl) rfl ?_ rfl rfl (fun _ _ => rfl)
+    simp
+
 end GlueVerif.Lemmas.C17
